@@ -672,8 +672,8 @@ void oasis_write_real(OasisStream& out, double value) {
     }
 
     double inverse = 1.0 / value;
-    if (trunc(inverse) == inverse && fabs(inverse) < (double)UINT64_MAX) {
-        // inverse is integer
+    if (trunc(inverse) == inverse && fabs(inverse) < (double)UINT64_MAX && 1.0 / inverse == value) {
+        // inverse is integer and the reciprocal form reads back as exactly this value
         if (inverse >= 0) {
             oasis_putc((uint8_t)OasisDataType::RealPositiveReciprocal, out);
             oasis_write_unsigned_integer(out, (uint64_t)inverse);
